@@ -17,6 +17,10 @@ GCP optimizers; RNG who-may-call over all modules):
   ROWS    the per-row subproblem loops of the CP-APR Newton solvers carry no state from one row to the next beyond the reviewed
           table tables/c18_rowstate.json (model rows, counters, running maxima): the sparse path skips empty rows and the dense
           path does not, so any other carried state (damping parameter, quasi-Newton memory) makes the two runs diverge
+  EFFECT  in the decomposition modules, an in-place re-parameterisation (a method whose docstring says "in place": normalize,
+          arrange, redistribute, fixsigns, ...) written as a statement of its own acts on an object that lives on — not on a
+          temporary (`guess.copy().normalize()` normalises a copy nobody keeps, so a guess given as a Kruskal tensor and the same
+          guess given as matrices start the solver from different parameterisations)
 Not decided: dense vs. sparse agreement of the results beyond that clause, scaling and relabelling equivariance (relations between
 floating-point runs). Diagnostics recomputed only when printing (fit in cp_als, fnVals in cp_apr) may differ from
 the silent run by rounding; the property allows that.
@@ -375,11 +379,51 @@ def rows_independent(prog: Program, res: Result) -> None:
             res.ok("ROWS", short, desc, prog.loc(fi, loops[-1]), f"carried: {sorted(seen)}")
 
 
+EFFECT_MODULES = ("cp_als", "cp_apr", "hosvd", "tucker_als", "gcp_opt", "gcp.optimizers")
+
+
+def inplace_methods(prog: Program) -> Set[str]:
+    names = set()
+    for q, fi in prog.functions.items():
+        if fi.cls and not fi.parent and not fi.name.startswith("__") and any(w in fi.docstring().lower() for w in ("in place", "in-place")):
+            names.add(fi.name)
+    return names
+
+
+def effect_rule(prog: Program, res: Result, only: List[FuncInfo] = None) -> int:
+    meths = inplace_methods(prog)
+    if not {"normalize", "arrange", "redistribute", "fixsigns"} <= meths:
+        raise AnalysisError(f"in-place Kruskal methods not recognised by their docstrings: {sorted(meths)}")
+    n = 0
+    funcs = only if only is not None else [fi for q, fi in sorted(prog.functions.items())
+                                           if not fi.parent and any(q.startswith(f"pyttb.{m}.") for m in EFFECT_MODULES)]
+    for fi in funcs:
+        for st in walk_no_nested(fi.node):
+            if not (isinstance(st, ast.Expr) and isinstance(st.value, ast.Call) and isinstance(st.value.func, ast.Attribute)
+                    and st.value.func.attr in meths):
+                continue
+            recv = st.value.func.value
+            root = recv
+            while isinstance(root, (ast.Attribute, ast.Subscript)):
+                root = root.value
+            desc = f"in-place `{st.value.func.attr}` acts on an object that lives on: {ast.unparse(st)[:70]}"
+            n += 1
+            if isinstance(root, ast.Name):
+                res.ok("EFFECT", fi.short, desc, prog.loc(fi, st), f"receiver `{ast.unparse(recv)}`")
+            elif isinstance(root, ast.Call):
+                res.bad("EFFECT", fi.short, desc, prog.loc(fi, st),
+                        f"the receiver `{ast.unparse(recv)[:60]}` is a temporary (the value of a call) and the statement keeps neither it nor the "
+                        "method's result: the re-parameterisation has no effect")
+            else:
+                res.undecided("EFFECT", fi.short, desc, prog.loc(fi, st), "receiver form not recognised")
+    return n
+
+
 def check(prog: Program, res: Result, tier: str) -> None:
     res.explanation = __doc__.split("\n\n", 1)[1]
     res.assumptions = ["print / logging / f-string formatting have no effect on program state",
                        "normalize / arrange / redistribute / fixsigns change only the parameterisation of a Kruskal tensor (C08)"]
-    res.floors = {"TAINT": 30, "RNG": 8, "ROWS": 2}
+    res.floors = {"TAINT": 30, "RNG": 8, "ROWS": 2, "EFFECT": 17}
     rows_independent(prog, res)
     eng = al.Engine(prog)
     eng.solve()
@@ -388,6 +432,13 @@ def check(prog: Program, res: Result, tier: str) -> None:
         total += check_function(prog, res, eng, prog.func(f))
     res.analysed["tainted_regions"] = total
     rng_rule(prog, res)
+    effect_rule(prog, res)
+    fx2 = ast.parse("def f(init):\n    init.copy().normalize('all')\n    return init\n")
+    fi2 = FuncInfo("pyttb.fixture.f", "pyttb.fixture", None, "f", fx2.body[0], prog.functions[next(iter(prog.functions))].path)
+    tmp2 = Result("C18")
+    effect_rule(prog, tmp2, [fi2])
+    if not any(i.verdict == "VIOLATION" for i in tmp2.instances):
+        raise AnalysisError("EFFECT rule did not fire on its positive fixture")
     # positive fixture: the rule must recognise a forbidden draw when there is one
     import types
     fx = ast.parse("def f(printitn):\n    if printitn > 0:\n        x = np.random.rand(3)\n        return x\n")
